@@ -37,6 +37,9 @@ type c19Gen struct {
 	Set    []int  `json:"set"`
 	M      int    `json:"m"`
 	Height uint32 `json:"height"`
+	// Bare: the payload lacks its optional validator part: ONT header with new_chain_config null,
+	// quorum header with an empty validator list, NEO-family header with an all-zero next consensus
+	Bare bool `json:"bare,omitempty"`
 }
 
 type c19Op struct {
@@ -56,7 +59,8 @@ var c19Routers = []string{"ont", "neo", "neo3", "neo3legacy", "quorum"}
 
 func genC19Gen(t *rapid.T) c19Gen {
 	set := genSet(t, "set", 1, 5)
-	return c19Gen{Set: set, M: rapid.IntRange(1, len(set)).Draw(t, "m"), Height: rapid.SampledFrom([]uint32{0, 5, 9}).Draw(t, "height")}
+	return c19Gen{Set: set, M: rapid.IntRange(1, len(set)).Draw(t, "m"), Height: rapid.SampledFrom([]uint32{0, 5, 9}).Draw(t, "height"),
+		Bare: rapid.IntRange(0, 3).Draw(t, "bare") == 0}
 }
 
 func genC19Op(t *rapid.T) c19Op {
@@ -165,6 +169,22 @@ type c19Chain struct {
 }
 
 func c19Payload(router string, g c19Gen) []byte {
+	if g.Bare {
+		zero := make([]byte, 20)
+		switch router {
+		case "ont":
+			// the salt keeps payloads of different gens distinct although no peer set is carried
+			return ontHeaderBytes(ontHeader{Height: g.Height, Salt: uint32(len(g.Set)*16 + g.M)})
+		case "neo":
+			return neo2HeaderBytes(neoHeader{Index: g.Height, Salt: uint32(g.M)}, zero, []byte{0x51})
+		case "neo3":
+			return neo3HeaderBytes(neoHeader{Index: g.Height, Salt: uint32(g.M)}, zero, []byte{0x11})
+		case "neo3legacy":
+			return neo3legacyHeaderBytes(neoHeader{Index: g.Height, Salt: uint32(g.M)}, zero, []byte{0x11})
+		case "quorum":
+			return quorumHeader(uint64(g.Height), nil, false)
+		}
+	}
 	switch router {
 	case "ont":
 		return ontHeaderBytes(ontHeader{Height: g.Height, HasCfg: true, NewCfg: g.Set})
@@ -217,6 +237,10 @@ func c19Reset(st *c19Chain, g c19Gen) {
 	st.tracked = scriptSpec{M: g.M, Keys: canonicalOrder(g.Set)}
 	st.vals = append([]int(nil), g.Set...)
 	st.ontKeys = map[uint32][]int{g.Height: g.Set}
+	if g.Bare {
+		st.ontKeys = map[uint32][]int{}
+		st.vals = nil
+	}
 }
 
 var c19Prefixes = []string{hscommon.CONSENSUS_PEER_BLOCK_HEIGHT, hscommon.CONSENSUS_PEER, hscommon.CROSS_CHAIN_MSG, hscommon.CURRENT_MSG_HEIGHT,
@@ -373,7 +397,9 @@ func runC19(ctx *ev.Ctx, c c19Case) {
 							if height > s.height {
 								s.height = height
 							}
-							keys[g.Height] = g.Set
+							if !g.Bare {
+								keys[g.Height] = g.Set
+							}
 							s.ontKeys = keys
 						}
 					}
